@@ -166,7 +166,7 @@ class Twin:
 
 
 # ------------------------------------------------------------------ observations of one twin
-def observe(tw):
+def observe(tw, blame=True):
     r = tw.r
     o = {"head": r.head()}
     rc, out, _ = r.plain_git("for-each-ref", "--format=%(refname) %(objectname)", "refs/heads/", "refs/stash")
@@ -190,12 +190,15 @@ def observe(tw):
             if blob not in tw.note_cache:
                 tw.note_cache[blob] = U.canon_note(r.note_text(c))
             o["notes"][c] = tw.note_cache[blob]
-    o["blame"] = {}
-    rc, out, _ = r.plain_git("ls-files", "-z")
-    for p in [x for x in out.split("\0") if x]:
-        o["blame"][p] = U.canon_blame(r.blame(p))
+    if blame:
+        o["blame"] = blame_all(r)
     o["wl"] = U.working_logs(r)
     return o
+
+
+def blame_all(r):
+    rc, out, _ = r.plain_git("ls-files", "-z")
+    return {p: U.canon_blame(r.blame(p)) for p in [x for x in out.split("\0") if x]}
 
 
 def lines_of(content):
@@ -207,9 +210,9 @@ FILES = ["a.txt", "src/b.rs", "c.md"]
 MACROS_AGREE = ["work", "amend", "rebase", "rebase-onto", "rebase-opts", "rebase-noop", "rebase-conflict-continue",
                 "rebase-conflict-abort", "cherry-pick", "cherry-pick-n", "cherry-pick-conflict-continue", "reset",
                 "stash", "squash", "switch", "pull-ff", "pull-rebase", "pull-rebase-noop"]
-MACROS_FULL = MACROS_AGREE + ["rebase-i-reorder", "rebase-i-squash", "rebase-i-fixup", "rebase-i-drop", "rebase-conflict-abort-reset",
+MACROS_FULL = MACROS_AGREE + ["rebase-i-reorder", "rebase-i-squash", "rebase-i-fixup", "rebase-i-drop", "rebase-autostash", "pull-rebase-autostash", "rebase-conflict-abort-reset",
                               "rebase-conflict-abort-commit",
-                              "rebase-conflict-skip", "cherry-pick-range", "cherry-pick-range-conflict", "cherry-pick-conflict-abort",
+                              "rebase-conflict-skip", "cherry-pick-range", "cherry-pick-range-conflict", "cherry-pick-conflict-abort", "cherry-pick-conflict-commit",
                               "reset-human", "reset-hard-head", "reset-forward", "stash-apply", "stash-human", "checkout-force",
                               "checkout-merge", "checkout-path", "revert"]
 # `git rebase <options> main`: option spellings that take a value as a separate word / attached / with `=`
@@ -247,6 +250,10 @@ class Scenario:
     def close(self):
         for t in self.tw.values():
             t.close()
+
+    def finish(self):
+        """blame of every file in the wrapper twin and the both-installed twin at the end of the scenario"""
+        return {k: blame_all(self.tw[k].r) for k in ("W", "B") if k in self.tw}
 
     # ---------------------------------------------------------------- basics
     def ix(self, sha):
@@ -350,7 +357,9 @@ class Scenario:
         if env:
             st["env"] = env
         rcs = self.low(st)
-        obs = {k: observe(t) for k, t in self.tw.items()}
+        # the both-installed twin is compared on journal and notes after every operation, on blame (the costly part of
+        # an observation) once, at the end of the scenario (`finish`)
+        obs = {k: observe(t, blame=(k != "B")) for k, t in self.tw.items()}
         trace = self.tw["T"].new_trace() if "T" in self.tw else []
         rc = rcs["W"]
         try:
@@ -420,7 +429,8 @@ class Scenario:
         return {"orig": self.ix(orig), "onto": self.ix(onto), "upstreamArg": self.ix(start["upstreamArg"]),
                 "branchArg": self.ix(start.get("branchArg")),
                 "interactive": start["interactive"], "chain": [self.ix(c) for c in chain], "newChain": [self.ix(c) for c in new_chain],
-                "pairs": pairs, "newHead": self.ix(nh), "inner": self.inner_of(trace, first), "wlAtOrig": start["wl"]}
+                "pairs": pairs, "newHead": self.ix(nh), "inner": self.inner_of(trace, first), "wlAtOrig": start["wl"],
+                "autostash": bool(start.get("autostash"))}
 
     def in_progress(self):
         gd = os.path.join(self.q.path, ".git")
@@ -434,7 +444,7 @@ class Scenario:
                              "upstreamArg": self.ix(start["upstreamArg"]), "branchArg": self.ix(start.get("branchArg")),
                              "interactive": start["interactive"], "chain": [],
                              "newChain": [], "pairs": [], "newHead": self.ix(start["orig"]), "inner": self.inner_of(trace, True),
-                             "wlAtOrig": start["wl"]})
+                             "wlAtOrig": start["wl"], "autostash": bool(start.get("autostash"))})
             if rc != 0:
                 return None
             r = self.rebase_facts(start, trace, pull)
@@ -643,14 +653,20 @@ class Scenario:
             for _ in range(1 + rng.below(2)):
                 self.edit(self.who(), rng.pick(FILES), rng.pick(["top", "middle", "bottom"]))
             self.commit("amended", label="amend", extra=["--amend"])
-        elif name in ("rebase", "rebase-onto", "rebase-opts") or name.startswith("rebase-i-"):
+        elif name in ("rebase", "rebase-onto", "rebase-opts", "rebase-autostash") or name.startswith("rebase-i-"):
             n = 3 if name.startswith("rebase-i-") else 2 + rng.below(2)
             br = self.feature(n, upstream=prm.get("upstream") or rng.pick(["other", "above"]))
             self.switch(br)
+            if name == "rebase-autostash":
+                self.edit("s1", FILES[0], "bottom")             # uncommitted AI work carried over the rebase
             orig, main = self.head(), self.g("rev-parse", "main")
             start = {"orig": orig, "onto": main, "upstreamArg": main, "interactive": name.startswith("rebase-i-"),
-                     "wl": orig in self.prev_obs["W"].get("wl", {})}
-            if name == "rebase":
+                     "wl": orig in observe(self.tw["W"], blame=False).get("wl", {})}
+            if name == "rebase-autostash":
+                start["autostash"] = True
+                self.op("rebase-autostash", ["rebase", "--autostash", "main"], self.m_rebase(start))
+                self.commit("after autostash rebase")
+            elif name == "rebase":
                 self.op("rebase", ["rebase", "main"], self.m_rebase(start))
             elif name == "rebase-opts":
                 opts = prm.get("opts") or rng.pick(REBASE_OPTS)
@@ -745,7 +761,13 @@ class Scenario:
                 self.op("cherry-pick-conflict-stop", ["cherry-pick", src], self.m_cherry_pick([src]))
                 act = name.split("-")[-1]
             if self.pending:
-                if act == "continue":
+                if act == "commit":
+                    # the conflicted pick is concluded with `git commit` instead of `cherry-pick --continue`
+                    # (outside the modelled alphabet: no Lean op; compared on the implementation only)
+                    self.resolve(p)
+                    self.op("cherry-pick-commit", ["commit", "-q", "--no-edit"], None, env={"GIT_EDITOR": "true"})
+                    self.pending = None
+                elif act == "continue":
                     self.resolve(p)
                     lab = "cherry-pick-range-continue" if name == "cherry-pick-range-conflict" else "cherry-pick-continue"
                     self.op(lab, ["cherry-pick", "--continue"], self.m_cherry_pick_continue, env={"GIT_EDITOR": "true"})
@@ -831,7 +853,7 @@ class Scenario:
             self.edit("s2", FILES[1], "bottom")
             self.commit("carried")
             self.switch("main")
-        elif name in ("pull-ff", "pull-rebase", "pull-rebase-noop"):
+        elif name in ("pull-ff", "pull-rebase", "pull-rebase-noop", "pull-rebase-autostash"):
             if self.g("symbolic-ref", "-q", "--short", "HEAD") != "main":
                 self.switch("main")
             self.ensure_remote()
@@ -853,6 +875,10 @@ class Scenario:
                     start = {"orig": orig, "onto": up, "upstreamArg": up, "interactive": False, "wl": orig in pre["wl"]}
                     return self.m_rebase(start, pull=True)(pre, rc, tr)
                 self.op("pull-rebase-noop", ["pull", "-q", "--rebase"], mk0)
+                if (prm.get("then") or rng.pick(["agent", "reset"])) == "reset":
+                    # an operation that needs the reference-transaction hook, before any checkpoint / checkout
+                    self.op("reset-soft", ["reset", "-q", "--soft", "HEAD~1"], self.m_reset("soft"))
+                    self.commit("after reset")
                 self.work_commit("after noop pull", ai=True)
                 return
             self.peer_commit()
@@ -866,11 +892,19 @@ class Scenario:
                 self.work_commit("local 1", ai=True)
                 self.work_commit("local 2", ai=True)
                 orig = self.head()
+                auto = name == "pull-rebase-autostash"
+                if auto:
+                    self.edit("s2", FILES[0], "bottom")         # uncommitted AI work carried over the pull
+                wl = orig in observe(self.tw["W"], blame=False).get("wl", {})
                 def mk(pre, rc, tr):
                     up = self.g("rev-parse", "@{upstream}")
-                    start = {"orig": orig, "onto": up, "upstreamArg": up, "interactive": False, "wl": orig in pre["wl"]}
+                    start = {"orig": orig, "onto": up, "upstreamArg": up, "interactive": False, "wl": wl, "autostash": auto}
                     return self.m_rebase(start, pull=True)(pre, rc, tr)
-                self.op("pull-rebase", ["pull", "-q", "--rebase"], mk)
+                if auto:
+                    self.op("pull-rebase-autostash", ["pull", "-q", "--rebase", "--autostash"], mk)
+                    self.commit("after pull autostash")
+                else:
+                    self.op("pull-rebase", ["pull", "-q", "--rebase"], mk)
                 self.work_commit("after pull", ai=True)
         elif name == "revert":
             self.work_commit("to revert", ai=True)
